@@ -336,6 +336,115 @@ static void run_fileenv(int D) {
 }
 #endif
 
+#ifdef C18_MT
+/* ---- re-entrancy: "each result is a pure function of exactly the given bytes" also while another thread is inside a hash
+ * function. Two threads, one call each from a menu (qhashmd5_file on two files and on two ranges of the same file, qhashmd5,
+ * MurmurHash3 32/128, FNV-1 32/64 on buffers of their own) run under the E2 scheduler (engines/sched/sched.c) with a scheduling
+ * point at every read() (--wrap): every interleaving of the system calls of the two threads with <= PB preemptions. Every
+ * result must equal the reference computed beforehand; in the tsan flavour (hand-offs invisible to the sanitizer) any data
+ * race report is a violation: state shared between two calls shows up in every schedule in which both touch it. */
+#include "../sched/sched.h"
+ssize_t __real_read(int fd, void *buf, size_t n);
+ssize_t __wrap_read(int fd, void *buf, size_t n) { sc_yield(); ssize_t r = __real_read(fd, buf, n); sc_yield(); return r; }   /* before: order of the system calls; after: the caller has its bytes but has not used them yet */
+#define MT_MENU 8
+static const char *MT_FN[MT_MENU] = {"md5file", "md5file", "md5file", "md5", "murmur3_32", "murmur3_128", "fnv1_32", "fnv1_64"};
+static const char *MT_LABEL[MT_MENU] = {"qhashmd5_file", "qhashmd5_file", "qhashmd5_file", "qhashmd5", "qhashmurmur3_32", "qhashmurmur3_128", "qhashfnv1_32", "qhashfnv1_64"};
+static char mt_path[2][256]; static uint8_t *mt_file[2]; static const int MT_FSIZE[2] = {70000, 50013};
+static uint8_t *mt_buf[2][MT_MENU]; static const int MT_BLEN[MT_MENU] = {0, 0, 0, 1000, 1001, 1003, 999, 998};
+static uint8_t mt_ref[2][MT_MENU][16], mt_res[2][16]; static int mt_ok[2], mt_prog[2];
+static volatile int mt_tsan_reports;
+#ifdef VC_TSAN
+void __tsan_on_report(void *rep) { (void)rep; mt_tsan_reports++; }
+#endif
+static void mt_call(int tid, int k, uint8_t out[16], int *ok, int reference) {
+    memset(out, 0, 16); *ok = 1;
+    const uint8_t *b = mt_buf[tid][k]; size_t n = MT_BLEN[k];
+    switch (k) {
+        case 0: if (reference) ref_md5(mt_file[0], MT_FSIZE[0], out); else *ok = qhashmd5_file(mt_path[0], 0, 0, out); break;
+        case 1: if (reference) ref_md5(mt_file[1] + 13, 40000, out); else *ok = qhashmd5_file(mt_path[1], 13, 40000, out); break;
+        case 2: if (reference) ref_md5(mt_file[0] + 1, MT_FSIZE[0] - 1, out); else *ok = qhashmd5_file(mt_path[0], 1, MT_FSIZE[0] - 1, out); break;
+        case 3: if (reference) ref_md5(b, n, out); else *ok = qhashmd5(b, n, out); break;
+        case 4: { uint32_t h = reference ? ref_mm32(b, n) : qhashmurmur3_32(b, n); memcpy(out, &h, 4); break; }
+        case 5: { uint64_t q[2] = {0, 0}; if (reference) ref_mm128(b, n, q); else *ok = qhashmurmur3_128(b, n, q); memcpy(out, q, 16); break; }
+        case 6: { uint32_t h = reference ? ref_fnv32(b, n) : qhashfnv1_32(b, n); memcpy(out, &h, 4); break; }
+        case 7: { uint64_t h = reference ? ref_fnv64(b, n) : qhashfnv1_64(b, n); memcpy(out, &h, 8); break; }
+    }
+}
+static void mt_body(int tid) { mt_call(tid, mt_prog[tid], mt_res[tid], &mt_ok[tid], 0); }
+static long mt_exec, mt_programs, mt_maxsched, mt_sched_this;
+static void mt_run_one(void) {
+    char key[VC_KEYMAX], *k = key; k += sprintf(k, "mt:%d:%d:", mt_prog[0], mt_prog[1]); for (int i = 0; i < sc_nprefix; i++) k += sprintf(k, "%d", sc_prefix[i]);
+    if (!vc_case(MT_LABEL[mt_prog[0]], key)) { sc_np = 0; return; }
+    n_eval++; n_nontrivial++; mt_exec++;
+    int t0 = mt_tsan_reports;
+    sc_run(2, mt_body);
+    { char *q = key; q += sprintf(q, "mt:%d:%d:", mt_prog[0], mt_prog[1]); for (int i = 0; i < sc_np && i < 200; i++) q += sprintf(q, "%d", sc_choice[i]); snprintf(vc_sh->key, VC_KEYMAX, "%s", key); }
+    if (sc_diverged) vc_stat_add("replay_divergence", 1);
+    if (sc_deadlock || sc_livelock || sc_overflow) { vc_viol("md5file:stuck", "%s: the two calls never finish", key); vc_case_end(); return; }
+    for (int t = 0; t < 2; t++) {
+        char cls[64]; int f = mt_prog[t];
+        if (!mt_ok[t]) { snprintf(cls, sizeof cls, "%s:reentrancy", MT_FN[f]); vc_viol(cls, "%s: call of thread %d (%s) returned false while thread %d ran %s", key, t, MT_LABEL[f], 1 - t, MT_LABEL[mt_prog[1 - t]]); }
+        else if (memcmp(mt_res[t], mt_ref[t][f], 16)) { snprintf(cls, sizeof cls, "%s:reentrancy", MT_FN[f]); vc_viol(cls, "%s: result of thread %d (%s) differs from the published algorithm while thread %d ran %s concurrently", key, t, MT_LABEL[f], 1 - t, MT_LABEL[mt_prog[1 - t]]); }
+    }
+    if (mt_tsan_reports != t0) { char cls[64]; snprintf(cls, sizeof cls, "%s:data-race", MT_FN[mt_prog[0]]); vc_viol(cls, "%s: thread sanitizer reported a data race between %s and %s", key, MT_LABEL[mt_prog[0]], MT_LABEL[mt_prog[1]]); }
+#ifdef VC_ASAN
+    if (vc_asan_check()) vc_viol("asan:reentrancy", "%s", key);
+#endif
+    vc_case_end();
+}
+static void mt_explore(const int *prefix, int nprefix, int PB) {
+    memcpy(sc_prefix, prefix, sizeof(int) * nprefix); sc_nprefix = nprefix;
+    mt_run_one(); mt_sched_this++;
+    int np = sc_np; if (np == 0) return;
+    int *choice = malloc(sizeof(int) * np), *nen = malloc(sizeof(int) * np), *curen = malloc(sizeof(int) * np);
+    memcpy(choice, sc_choice, sizeof(int) * np); memcpy(nen, sc_nen, sizeof(int) * np); memcpy(curen, sc_cur_en, sizeof(int) * np);
+    int cost = 0; for (int i = 0; i < nprefix && i < np; i++) if (choice[i] != 0 && curen[i]) cost++;
+    for (int i = nprefix; i < np; i++) {
+        if (cost + (curen[i] ? 1 : 0) <= PB) for (int alt = 1; alt < nen[i]; alt++) {
+            int *p2 = malloc(sizeof(int) * (i + 1)); memcpy(p2, choice, sizeof(int) * i); p2[i] = alt;
+            mt_explore(p2, i + 1, PB); free(p2);
+            if (vc_deadline_hit()) break;
+        }
+    }
+    free(choice); free(nen); free(curen);
+}
+static int mt_setup(void) {
+    for (int f = 0; f < 2; f++) {
+        snprintf(mt_path[f], sizeof mt_path[f], "%s/c18_mt_%d_%d.bin", getenv("TMPDIR") ? getenv("TMPDIR") : "/tmp", (int)getpid(), f);
+        mt_file[f] = malloc(MT_FSIZE[f]); for (int i = 0; i < MT_FSIZE[f]; i++) mt_file[f][i] = (uint8_t)((i * (37 + 4 * f) + 11 + f) % 251);
+        int fd = open(mt_path[f], O_WRONLY | O_CREAT | O_TRUNC, 0600);
+        if (fd < 0 || write(fd, mt_file[f], MT_FSIZE[f]) != MT_FSIZE[f]) { printf("NOTE\tcannot write temp file\n"); vc_stat_add("anchor_fail", 1); return 1; }
+        close(fd);
+    }
+    for (int t = 0; t < 2; t++) for (int k = 0; k < MT_MENU; k++) {
+        if (MT_BLEN[k]) { mt_buf[t][k] = malloc(MT_BLEN[k]); for (int i = 0; i < MT_BLEN[k]; i++) mt_buf[t][k][i] = (uint8_t)(i * 13 + 7 * k + 101 * t + (i % 17 == 3 ? 0 : 1)); }
+        int ok; mt_call(t, k, mt_ref[t][k], &ok, 1);
+    }
+    return 0;
+}
+static void run_mt(int PB) {
+    if (mt_setup()) return;
+    for (int a = 0; a < MT_MENU; a++) for (int b = 0; b < MT_MENU; b++) {
+        if (vc_deadline_hit()) break;
+        mt_prog[0] = a; mt_prog[1] = b; mt_sched_this = 0;
+        mt_explore(NULL, 0, PB);
+        mt_programs++; if (mt_sched_this > mt_maxsched) mt_maxsched = mt_sched_this;
+        if (a < 3 && b == a) vc_sample("T0: %s | T1: %s (calls %d and %d of the menu): %ld schedules with <= %d preemptions at read() granularity", MT_LABEL[a], MT_LABEL[b], a, b, mt_sched_this, PB);
+    }
+    unlink(mt_path[0]); unlink(mt_path[1]);
+    vc_stat_add("mt_programs", mt_programs); vc_stat_add("mt_executions", mt_exec); vc_stat_add("mt_max_schedules_per_program", mt_maxsched); vc_stat_add("mt_tsan_reports", mt_tsan_reports);
+}
+static void mt_replay(const char *key) {
+    int off = 0; if (sscanf(key, "mt:%d:%d:%n", &mt_prog[0], &mt_prog[1], &off) < 2 || mt_setup()) return;
+    int prefix[SC_MAXP], n = 0; for (const char *p = key + off; *p >= '0' && *p <= '9' && n < SC_MAXP; p++) prefix[n++] = *p - '0';
+    memcpy(sc_prefix, prefix, sizeof(int) * n); sc_nprefix = n; mt_run_one();
+    uint8_t r0[2][16]; memcpy(r0, mt_res, sizeof r0);
+    memcpy(sc_prefix, prefix, sizeof(int) * n); sc_nprefix = n; mt_run_one();
+    if (memcmp(r0, mt_res, sizeof r0)) printf("NOTE\tREPLAY NOT DETERMINISTIC\n");
+    unlink(mt_path[0]); unlink(mt_path[1]);
+}
+#endif
+
 /* lengths around 2^31: block counts and tail offsets that do not fit into an int. The buffer is an anonymous mapping (untouched
  * pages are the shared zero page) with a few non-zero bytes at both ends; the references use size_t throughout. */
 #include <sys/mman.h>
@@ -377,6 +486,9 @@ static int replay(const char *key) {
 #ifdef C18_ENV
     else if (!strncmp(key, "fileenv:", 8)) { vc_viol_print_per_class = 3; run_fileenv(2); }
 #endif
+#ifdef C18_MT
+    else if (!strncmp(key, "mt:", 3)) mt_replay(key);
+#endif
     return 0;
 }
 static int worker(int argc, char **argv) {
@@ -389,6 +501,9 @@ static int worker(int argc, char **argv) {
     else if (!strcmp(argv[1], "hugelen")) { vc_hang_ticks = 300; run_hugelen(argc > 2 && atoi(argv[2])); }
 #ifdef C18_ENV
     else if (!strcmp(argv[1], "fileenv")) run_fileenv(atoi(argv[2]));
+#endif
+#ifdef C18_MT
+    else if (!strcmp(argv[1], "mt")) { vc_hang_ticks = 20; run_mt(atoi(argv[2])); }
 #endif
     vc_stat_add("evaluations", n_eval);
     vc_stat_add("nontrivial", n_nontrivial);
